@@ -105,7 +105,120 @@ def value_bits(node, tu):
     return (64, True)
 
 
-def worst_length(fmt, args, tu):
+def _const_of(node, tu, fbody):
+    """integer constant a (stripped) expression denotes: a literal / macro / enum, or a const-qualified local with a constant initialiser"""
+    n = strip(node, casts=True)
+    v = astdb.const_int(n, tu)
+    if v is not None:
+        return v
+    if n.get('kind') == 'DeclRefExpr':
+        d = _local_decl(n, fbody)
+        if d is not None and 'const' in astdb.qtype(d).split() and d.get('init'):
+            ks = [c for c in kids(d) if c.get('kind')]
+            return _const_of(ks[-1], tu, fbody) if ks else None
+    return None
+
+
+def _local_decl(ref, fbody):
+    rid = (ref.get('referencedDecl') or {}).get('id')
+    if rid is None or fbody is None:
+        return None
+    for d in walk(fbody):
+        if d.get('kind') == 'VarDecl' and d.get('id') == rid:
+            return d
+    return None
+
+
+def _assigned_elsewhere(decl, fbody):
+    for x in walk(fbody):
+        if x.get('kind') in ('BinaryOperator', 'CompoundAssignOperator') and x.get('opcode', '').endswith('=') and x.get('opcode') not in ('==', '!=', '<=', '>='):
+            l = strip(kids(x)[0], casts=True)
+            if l.get('kind') == 'DeclRefExpr' and (l.get('referencedDecl') or {}).get('id') == decl.get('id'):
+                return True
+        if x.get('kind') == 'UnaryOperator' and x.get('opcode') in ('++', '--', '&'):
+            l = strip(kids(x)[0], casts=True)
+            if l.get('kind') == 'DeclRefExpr' and (l.get('referencedDecl') or {}).get('id') == decl.get('id'):
+                return True
+    return False
+
+
+def uint_upper(node, tu, fbody, site, depth=0):
+    """largest value of a non-negative integer expression at the statement `site` (a node inside fbody), or None: constants,
+    x % K (K-1), x / K, casts (clipped to the target type), locals that are initialised once (their initialiser) - refined by the
+    conditions `v < K` / `v <= K` of the if statements whose then-branch contains the site"""
+    if depth > 12:
+        return None
+    n = node
+    k = n.get('kind')
+    t = tu.desugar(astdb.qtype(n)) if n.get('type') else ''
+    info = astdb.int_type_info(t) if t else None
+    tmax = None
+    if info is not None:
+        tmax = (1 << (info[0] - (1 if info[1] else 0))) - 1
+    c = astdb.const_int(n, tu)
+    if c is not None:
+        return c if c >= 0 else None
+    if k in ('ParenExpr', 'ImplicitCastExpr', 'CStyleCastExpr', 'ConstantExpr'):
+        ks = [c_ for c_ in kids(n) if c_.get('kind')]
+        sub = uint_upper(ks[-1], tu, fbody, site, depth + 1) if ks else None
+        if sub is None:
+            return tmax if info is not None and not info[1] else None
+        return sub if tmax is None else min(sub, tmax) if sub <= tmax or not (info and info[1]) else None
+    if k == 'BinaryOperator' and n.get('opcode') in ('%', '/'):
+        l, r = kids(n)[0], kids(n)[1]
+        kv = _const_of(r, tu, fbody)
+        lt = astdb.int_type_info(tu.desugar(astdb.qtype(n)))
+        if kv is not None and kv > 0 and lt is not None and not lt[1]:
+            if n['opcode'] == '%':
+                return kv - 1
+            lu = uint_upper(l, tu, fbody, site, depth + 1)
+            return None if lu is None else lu // kv
+        return tmax if info is not None and not info[1] else None
+    if k == 'DeclRefExpr':
+        best = tmax if info is not None and not info[1] else None
+        d = _local_decl(n, fbody)
+        if d is not None and d.get('init') and not _assigned_elsewhere(d, fbody):
+            ks = [c_ for c_ in kids(d) if c_.get('kind')]
+            iv = uint_upper(ks[-1], tu, fbody, site, depth + 1) if ks else None
+            if iv is not None:
+                best = iv if best is None else min(best, iv)
+            # guards: if (v < K) { ... site ... }
+            par = _parents(fbody)
+            cur = site
+            while cur is not None and id(cur) in par:
+                up = par[id(cur)]
+                if up.get('kind') == 'IfStmt':
+                    iks = [c_ for c_ in up.get('inner', []) if c_.get('kind')]
+                    if len(iks) >= 2 and iks[1] is cur:
+                        cond = strip(iks[0], casts=True)
+                        if cond.get('kind') == 'BinaryOperator' and cond.get('opcode') in ('<', '<='):
+                            cl = strip(kids(cond)[0], casts=True)
+                            kv = _const_of(kids(cond)[1], tu, fbody)
+                            if cl.get('kind') == 'DeclRefExpr' and (cl.get('referencedDecl') or {}).get('id') == d.get('id') and kv is not None:
+                                g = kv - 1 if cond['opcode'] == '<' else kv
+                                if g >= 0:
+                                    best = g if best is None else min(best, g)
+                cur = up
+        return best
+    return tmax if info is not None and not info[1] else None
+
+
+_PARENTS = {}
+
+
+def _parents(fbody):
+    key = id(fbody)
+    if key not in _PARENTS:
+        par = {}
+        for n in walk(fbody):
+            for c in n.get('inner', []) or []:
+                if isinstance(c, dict):
+                    par[id(c)] = n
+        _PARENTS[key] = (fbody, par)
+    return _PARENTS[key][1]
+
+
+def worst_length(fmt, args, tu, fbody=None, site=None):
     """(max characters written excluding the terminator, [explanations]) or (None, why)"""
     total = 0
     why = []
@@ -144,6 +257,12 @@ def worst_length(fmt, args, tu):
                 if neg or bits > conv_bits:
                     bits = conv_bits            # a negative value converts to a large unsigned one
                 maxv = (1 << bits) - 1
+                if not neg and fbody is not None:
+                    # interval refinement: remainders and quotients by constants, once-initialised locals, enclosing `v < K` guards
+                    ub = uint_upper(a, tu, fbody, site)
+                    if ub is not None and ub < maxv:
+                        maxv = ub
+                        bits = max(1, ub.bit_length())
                 n = {'u': len(str(maxv)), 'o': len('%o' % maxv) + ('#' in flags), 'x': len('%x' % maxv) + 2 * ('#' in flags),
                      'X': len('%X' % maxv) + 2 * ('#' in flags)}[conv]
             if prec is not None:
@@ -237,7 +356,7 @@ def check_formatted_writes(chk, funcs):
                     alts = format_alternatives(args[fi])
                 if size is not None and alts:
                     for fmt_ in alts:
-                        total, why = worst_length(fmt_, args[fi + 1:], tu)
+                        total, why = worst_length(fmt_, args[fi + 1:], tu, astdb.fn_body(f), c)
                         if total is None:
                             chk.fail('R10.1', site, '%s at %s into %s[%d]: %s' % (cn, loc, astdb.expr_text(args[di]), size, why), site, loc)
                             continue
@@ -250,7 +369,7 @@ def check_formatted_writes(chk, funcs):
                     chk.fail('R10.1', site, '%s at %s writes to %s with format %s: destination size or format is not a compile-time constant'
                              % (cn, loc, astdb.expr_text(args[di]), astdb.expr_text(args[fi])), site, loc)
                     continue
-                total, why = worst_length(fmt, args[fi + 1:], tu)
+                total, why = worst_length(fmt, args[fi + 1:], tu, astdb.fn_body(f), c)
                 if total is None:
                     chk.fail('R10.1', site, '%s at %s into %s[%d]: %s' % (cn, loc, astdb.expr_text(args[di]), size, why), site, loc)
                     continue
